@@ -7,6 +7,8 @@ TB_VERUS = ['Verus 0.2026.09.13 + Z3 (vstd axioms incl. wrapping_* / Box<[u8]> i
 UNITS = {
     'timer': {},
     'joypad': {},
+    'cart': {},
+    'bus': {},
 }
 
 PROPS = {
@@ -33,6 +35,38 @@ PROPS['C17'] = {
     'design_ref': 'DESIGN.md 5.17',
     'trusted_base': TB_VERUS + ['assume_specification std::mem::replace (returns old value, stores new one)'],
     'assumptions': ['P1 bits 6-7 are outside the property (excluded by its quantifier)'],
+}
+
+_BUS_TB = TB_VERUS + ['assume_specification Vec::into_boxed_slice (same elements)', 'assume_specification std::mem::replace',
+                      'VideoState::run_clock_cycles, LCD::new, SerialComms::set_control are external_body in this unit (contracts assumed here; see C14 / C18)']
+PROPS['C10'] = {
+    'level': 'proof', 'verus': ['bus'], 'trusted_base': _BUS_TB, 'design_ref': 'DESIGN.md 5.10',
+    'technique': 'Verus contracts: memory_read_byte == read_spec (documented map), memory_write_byte whole-map frame + I/O read-back table, fetch-view contract',
+    'level_text': 'memory_read_byte, memory_write_byte, memory_read/write_word, get_executable_memory_slice, IO::get_byte/set_byte and every register getter/setter they reach are extracted from /repo and proved for every address and value under the representation invariant mem_wf: reads equal the documented map read_spec; a write changes exactly one cell of VRAM / cartridge RAM / WRAM / OAM / HRAM (whole-map frame: every other address reads as before), ROM never changes, unmapped regions read a constant and ignore writes, listed I/O registers read back their writable bits, the fetch slice equals data reads in ROM/WRAM/HRAM.',
+    'level_note': 'Trusts Verus/Z3, the extraction rules, read_spec (written from the memory map in the property), assumed contracts of the LCD timing core / stdout. Cartridge-RAM addresses without a RAM cell are specified as unmapped (constant, writes ignored). IE full-byte storage is a recorded finding.',
+    'assumptions': ['mem_wf is established by MemoryAreas::with_rom (proved) and with_rom_file (unit loader, C19)',
+                    'cartridge RAM enable (0x0000-0x1FFF) is not part of the property and not modelled'],
+}
+PROPS['C11'] = {
+    'level': 'proof', 'verus': ['bus', 'cart'], 'trusted_base': _BUS_TB, 'design_ref': 'DESIGN.md 5.11',
+    'technique': 'Verus built-in obligations (index in bounds, arithmetic overflow, unreachable panics) on the bus functions under the invariant mem_wf preserved by every write',
+    'level_text': 'Every index, arithmetic operation and panic site in the four bus helpers, the bank helpers, IO::get_byte/set_byte and the MBC write handlers is proved safe for every address, value and reachable controller state (invariant CartState::inv + mem_wf preserved by every bus write, for any ROM of 1..512 banks and any cartridge RAM size up to 128 KiB).',
+    'level_note': 'Process-level abort semantics are not modelled: a reachable panic is already the violation. The LCD pixel pipeline (run_clock_cycles) is outside the bus functions this property quantifies over.',
+    'assumptions': ['overflow checks on (Verus checks every + - * on machine integers)', 'mem_wf at construction: with_rom proved here, with_rom_file in unit loader'],
+}
+PROPS['C12'] = {
+    'level': 'proof', 'verus': ['cart', 'bus'], 'trusted_base': _BUS_TB, 'design_ref': 'DESIGN.md 5.12',
+    'technique': 'Verus trait-level contracts: each CartState impl against the MBC register-protocol state machine; induction lemma over write sequences; bank reduction in the bus unit',
+    'level_text': 'write_rom / get_rom_bank / get_ram_bank of NullCartState, MBC1CartState and MBC3CartState are proved against mbc_step / mbc_rom_bank / mbc_ram_bank (5/7-bit masking, 0 -> 1 translation, MBC1 upper bits and mode); lemma_mbc_run_ok lifts this to any write sequence by induction; MemoryAreas::get_rom_bank / get_cart_ram_index and the read contract prove the visible banks are those numbers reduced modulo the cartridge size, 0x0000-0x3FFF is always bank 0 and ROM-only carts ignore writes.',
+    'level_note': 'The protocol spec (mbc_* functions) follows the classic MBC1 description in which mode 1 exposes only the 5-bit ROM bank (as the property and the code do); RAM enable and the MBC3 RTC are not modelled.',
+    'assumptions': [],
+}
+PROPS['C16'] = {
+    'level': 'proof', 'verus': ['bus'], 'trusted_base': _BUS_TB, 'design_ref': 'DESIGN.md 5.16',
+    'technique': 'Verus loop invariant on the DMA catch-up loop of MemoryAreas::run_clock_cycles + write contract for 0xFF46; batching lemma on the progress counter',
+    'level_text': 'The 0xFF46 arm of memory_write_byte arms Some{source = XX00, offset 0}; the catch-up loop is proved (all pages, all batch sizes, no bound) to copy bytes [offset, min(160, offset + n/4)) in ascending order, each read through the normal bus at that time, into OAM only; everything else is unchanged; completion after 160 machine cycles and restart follow from the contract; lemma_dma_batching proves split-independence of the progress.',
+    'level_note': 'P1 bits 6-7 and STAT bit 7 of a source byte taken from page 0xFF are outside the bus specification.',
+    'assumptions': [],
 }
 
 HOOK_COMMITS = []
